@@ -1,6 +1,8 @@
 use parol::{build::Builder, parol_runtime::Result};
 
 fn main() -> Result<()> {
+    // cfg flag used by external verification harnesses (see src/verif.rs)
+    println!("cargo::rustc-check-cfg=cfg(parol_verif)");
     // CLI equivalent is:
     // parol -f ./parol_ls.par -e ./parol_ls-exp.par -p ./src/parol_ls_parser.rs -a ./src/parol_ls_grammar_trait.rs -t ParolLsGrammar -m parol_ls_grammar -b -x --max-parsing-depth 1500
     Builder::with_explicit_output_dir("src")
